@@ -494,6 +494,7 @@ func (g *gen) contractCallGeneric(instr ssa.Instruction, con *Contract, sig *typ
 	res := g.freshResults(st, sig, sanitize(cname))
 	post := mkEnv(st)
 	post.old = pre
+	post.freshBase = preTop
 	for i, t := range g.resultSorts(sig) {
 		post.results = append(post.results, g.goVal(res[i], t))
 		post.resNames = append(post.resNames, sig.Results().At(i).Name())
